@@ -134,5 +134,14 @@ BadReqIsClient(h, k) == (k.done /\ k.malformed) => (k.fault /\ IsClientCode(k.co
 StatusTable(h, k) == (k.done /\ k.tr = "wsgi" /\ k.statusKnown /\ k.rpc) =>
      /\ k.status = Status(k.soap, k.cls, k.code)
      /\ \A i \in Idx(h) : h[i][1] = "sr" => h[i][2] = k.status
+\* C10, for a request of unknown validity (fuzzing): either a normal response, or a
+\* well-formed Client-family fault (4xx over HTTP for non-SOAP) without user code run
+FuzzOutcome(h, k) ==
+  /\ k.done
+  /\ IF k.fault
+       THEN /\ IsClientCode(k.code) /\ ~Has(h, "fn", "call") /\ k.faultDocOk
+            /\ (k.tr = "wsgi" => IF k.soap THEN k.status = 500 ELSE (k.status >= 400 /\ k.status < 500))
+       ELSE /\ Count(h, "fn", "call") <= 1
+            /\ (k.tr = "wsgi" => k.status = 200)
 NoEscape(h) == \A i \in Idx(h) : h[i][1] # "escape"
 =============================================================================
